@@ -2,6 +2,7 @@ package props
 
 import (
 	"fmt"
+	ctok "github.com/pip-services3-gox/pip-services3-expressions-gox/calculator/tokenizers"
 	"time"
 
 	cerrors "github.com/pip-services3-gox/pip-services3-commons-gox/errors"
@@ -32,7 +33,8 @@ type c05Step struct {
 	Fn      int    `json:"fn"`      // calculator: which user function list the evaluation gets (Fx, Gx differ per list)
 	// tokenizers: the entry point used for this feed (0 = NextToken loop, 1 = TokenizeBuffer, 2 = TokenizeBufferToStrings,
 	// 3 = TokenizeStreamToStrings, 4 = TokenizeStream). Parsers, calculator, template: 1 = Clear() is called before
-	// the feed ("cleans up ... from all data"), 3 = Clear() and automatic variables switched off for this feed.
+	// the feed ("cleans up ... from all data"), 3 = Clear() and automatic variables switched off for this feed; 4 (expression parser, may be
+	// combined) = also through ParseTokens, one list object twice. CSV tokenizers: 8 = rejected configuration calls first.
 	Mode int `json:"mode,omitempty"`
 }
 
@@ -78,6 +80,8 @@ type c05Instance struct {
 	opts int
 	// set by run: the second pass over the rewound scanner object gave other tokens than the first
 	rescan string
+	// set by run: something the instance did contradicts what it did a moment earlier in the same feed
+	selfcheck string
 }
 
 func newC05Instance(kind string, opts int) *c05Instance {
@@ -149,6 +153,23 @@ func (in *c05Instance) run(st c05Step) (obs string) {
 	f := guard(func() {
 		switch in.kind {
 		case "generic", "expression", "csv", "mustache", "csv-custom", "generic-custom":
+			if st.Mode == 8 {
+				// a configuration call the tokenizer rejects (a separator that is a quote symbol), then the accepted
+				// configuration set again: nothing of the rejected call stays behind
+				if ct, ok := in.tok.(*csv.CsvTokenizer); ok {
+					func() {
+						defer func() { recover() }()
+						ct.SetFieldSeparators([]rune{'#', ct.QuoteSymbols()[0]})
+					}()
+					func() {
+						defer func() { recover() }()
+						ct.SetQuoteSymbols([]rune{'$', ct.FieldSeparators()[0]})
+					}()
+					ct.SetQuoteSymbols(append([]rune{}, ct.QuoteSymbols()...))
+					ct.SetFieldSeparators(append([]rune{}, ct.FieldSeparators()...))
+				}
+				st.Mode = 0
+			}
 			if st.Mode != 0 {
 				var toks []tk
 				switch st.Mode {
@@ -211,6 +232,27 @@ func (in *c05Instance) run(st c05Step) (obs string) {
 			if err == nil {
 				obs += " | " + exprTokensRepr(in.ep.ResultTokens()) + " | vars " + strings.Join(in.ep.VariableNames(), ",") + " | initial " + exprTokensRepr(in.ep.InitialTokens())
 			}
+			if st.Mode&4 != 0 {
+				// the token-list entry: one list object (blanks kept) handed over twice
+				et := ctok.NewExpressionTokenizer()
+				et.SetSkipEof(true)
+				et.SetSkipComments(true)
+				et.SetDecodeStrings(true)
+				list := et.TokenizeBuffer(st.Input)
+				snapshot := append([]*tokenizers.Token{}, list...)
+				e1 := in.ep.ParseTokens(list)
+				r1 := errRepr(e1) + " " + exprTokensRepr(in.ep.ResultTokens())
+				e2 := in.ep.ParseTokens(list)
+				r2 := errRepr(e2) + " " + exprTokensRepr(in.ep.ResultTokens())
+				same := len(list) == len(snapshot)
+				for i := 0; same && i < len(list); i++ {
+					same = list[i] == snapshot[i]
+				}
+				if r1 != r2 || !same {
+					in.selfcheck = fmt.Sprintf("the token list of %q handed to ParseTokens twice: first %s, then %s (list unchanged: %v)", st.Input, r1, r2, same)
+				}
+				obs += " | via tokens " + r1
+			}
 		case "calculator":
 			if st.Mode&1 != 0 {
 				in.calc.Clear()
@@ -235,6 +277,18 @@ func (in *c05Instance) run(st c05Step) (obs string) {
 				}
 				v, e := in.calc.EvaluateUsingVariablesAndFunctions(in.vars, userFunctions(st.Fn))
 				obs += " | " + resultRepr(v, e)
+				if e == nil && v != nil {
+					// the caller files the result in a collection of its own and later clears that collection's values:
+					// the compiled expression still evaluates to what it evaluated to
+					before := resultRepr(v, e)
+					keep := variables.NewVariableCollection()
+					keep.Add(variables.NewVariable("kept", v))
+					keep.ClearValues()
+					v2, e2 := in.calc.EvaluateUsingVariablesAndFunctions(in.vars, userFunctions(st.Fn))
+					if after := resultRepr(v2, e2); after != before {
+						in.selfcheck = fmt.Sprintf("%q evaluated to %s; after the caller stored that result in a collection and cleared the collection's values it evaluates to %s", st.Input, before, after)
+					}
+				}
 				// automatic variables are Null in a fresh and in a reused calculator alike
 				v, e = in.calc.Evaluate()
 				obs += " | defaults: " + resultRepr(v, e)
@@ -280,10 +334,16 @@ func checkC05(c c05Case) *evid.Fail {
 	reused := newC05Instance(c.Kind, c.Opts)
 	for i, st := range c.Steps {
 		got := reused.run(st)
+		if reused.selfcheck != "" {
+			return evid.F("inconsistent-within-a-feed:"+c.Kind, "%s instance: %s", c.Kind, reused.selfcheck)
+		}
 		// the fresh instance fetches without asking first: how often the presence of a next token was queried
 		// must not matter either
 		plain := st
 		plain.HasNext = 0
+		if plain.Mode == 8 {
+			plain.Mode = 0 // the fresh instance never sees the rejected configuration calls
+		}
 		fresh := newC05Instance(c.Kind, c.Opts)
 		want := fresh.run(plain)
 		if fresh.rescan != "" {
@@ -390,6 +450,12 @@ func TestC05_Exhaustive(t *testing.T) {
 				} else {
 					// Clear() between the feeds (with and without automatic variables afterwards)
 					c05Run(rec, c05Case{kind, o, []c05Step{{a, -1, 0, 0, 0}, {b, -1, 0, 1, 1 + 2*(i%2)}}})
+					if kind == "exprparser" {
+						c05Run(rec, c05Case{kind, o, []c05Step{{a, -1, 0, 0, 4}, {b, -1, 0, 0, 4}}})
+					}
+				}
+				if kind == "csv" || kind == "csv-custom" {
+					c05Run(rec, c05Case{kind, o, []c05Step{{a, -1, 0, 0, 0}, {b, -1, 0, 0, 8}}})
 				}
 			}
 			for k := 0; k < triples/len(c05Kinds); k++ {
@@ -454,7 +520,12 @@ func TestC05_RapidSM(t *testing.T) {
 			if !isTok && rapid.IntRange(0, 5).Draw(rt, "clear") == 0 {
 				st.Mode = rapid.SampledFrom([]int{1, 3}).Draw(rt, "clearmode")
 			}
-			if isTok && rapid.IntRange(0, 3).Draw(rt, "entry") == 0 {
+			if kind == "exprparser" && rapid.IntRange(0, 3).Draw(rt, "viatokens") == 0 {
+				st.Mode |= 4
+			}
+			if (kind == "csv" || kind == "csv-custom") && rapid.IntRange(0, 5).Draw(rt, "rejectedcfg") == 0 {
+				st.Mode = 8
+			} else if isTok && rapid.IntRange(0, 3).Draw(rt, "entry") == 0 {
 				st.Mode = rapid.IntRange(1, 4).Draw(rt, "entrymode")
 			} else if isTok {
 				if rapid.IntRange(0, 3).Draw(rt, "abort") == 0 {
